@@ -14,6 +14,7 @@ open(p,'w').write(s.replace(old,new,1))
 PY
 [ $? -eq 3 ] && { rm -rf $d; exit 3; }
 export GOFLAGS=-mod=mod GOPROXY=off GOSUMDB=off GOTOOLCHAIN=local
+mkdir -p /tmp/gmsa-mut-verif; cp /verif/known_findings.json /tmp/gmsa-mut-verif/
 (cd $d && go build ./... 2>&1 | head -5)
 /verif/bin/gmsa check $prop --repo $d --verif /tmp/gmsa-mut-verif --no-controls 2>&1 | grep -E "FAILED|UNDECIDED|^gmsa:" | cut -c1-400
 rm -rf $d /tmp/gmsa-mut-verif/evidence /tmp/gmsa-mut-verif/replay
